@@ -228,3 +228,47 @@ def install_public(post):
     core.wrap_method(P.SubspaceTensor, "join", _adapt(post, False, False))
     core.wrap_method(P.SubspaceTensor, "meet", _adapt(post, True, False))
     core.wrap_method(P.LineTensor, "meet", _adapt(post, True, False))
+
+
+def line_histories(g, rng, gen, X):
+    """Histories on 3D line objects: a line is used in a meet / join (whatever the library derives from it is computed), then moved by a
+    transformation, copied, or overwritten in place, and used again -- as first and as second argument, in coplanar, skew and coincident
+    position.  Every call is judged by the monitors from the coordinates the objects hold at that moment."""
+    def tr(f, *a):
+        try:
+            return f(*a)
+        except Exception as e:  # judged by the monitors  # noqa: BLE001
+            return e
+
+    for _ in range(50):
+        P = [gen.nonzero_vec(rng, 4, 3) for _ in range(4)]
+        if all(v[-1] != 0 for v in P) and X.rank([X.vec(v) for v in P]) == 4:
+            break
+    else:
+        return
+    p, q, r, s = (g.Point(v) for v in P)
+    l, m, k = g.join(p, q), g.join(p, r), g.join(r, s)  # l, m meet in p; l, k are skew
+    for a, b in ((l, m), (m, l), (l, k), (k, l)):
+        tr(g.meet, a, b)
+        tr(g.join, a, b)
+        tr(a.is_coplanar, b)
+        tr(a.contains, p)
+    v = gen.nonzero_vec(rng, 3, 4)
+    t = g.translation(*[int(x) for x in v])
+    l2, m2 = t * l, t * m
+    for a, b in ((l2, m2), (m2, l2), (l2, m), (m, l2), (l2, l), (l2, t * l)):
+        tr(g.meet, a, b)
+        tr(g.join, a, b)
+    l3 = l + g.Point(*[int(x) for x in v])
+    tr(g.meet, l3, m2)
+    tr(l3.meet, m2)
+    # overwritten in place with the coordinates of another line (documented mutator), then used again
+    l4 = l.copy()
+    tr(g.meet, l4, m)
+    try:
+        l4[...] = np.asarray(k.array)
+    except Exception:  # noqa: BLE001
+        return
+    for a, b in ((l4, m), (m, l4), (l4, g.join(r, p)), (g.join(s, p), l4)):
+        tr(g.meet, a, b)
+        tr(g.join, a, b)
